@@ -715,6 +715,31 @@ def _points_of(e, seen=None) -> List[Any]:
     return list(seen.values())
 
 
+def _arrays_of(e) -> List[Any]:
+    """all Array objects reachable through .parts, each once (in first-visit order)"""
+    from classy_blocks.construct.array import Array
+    from classy_blocks.construct.point import Point
+
+    seen: Dict[int, Any] = {}
+
+    def rec(x):
+        if isinstance(x, Array):
+            seen.setdefault(id(x), x)
+            return
+        if isinstance(x, Point):
+            return
+        k = kind_of(x)
+        valid = getattr(getattr(x, "function", None), "_valid", None) if k == "icurve" else None
+        parts = list(x.parts)
+        if valid is not None:
+            x.function._valid = valid
+        for p in parts:
+            rec(p)
+
+    rec(e)
+    return list(seen.values())
+
+
 def projection_probe(target, other) -> List[dict]:
     """Independence of the projections: projecting ONE point (of the entity, of its copy) to a probe label must put
     that label on this point only — not on another point of the entity (Extrude's top face is a copy of its base),
@@ -756,22 +781,43 @@ def apply_steps(e, steps: List[dict], mode: str, times: int = 1):
     centers: List[Optional[List[float]]] = []
     mutated: List[str] = []
     own_points = _points_of(e)
+    own_arrays = _arrays_of(e)
 
     def alias(idx):
         if not own_points:  # an entity without Point parts (a bare point-list curve): nothing of its own to alias
             return np.array([1.0, -2.0, 0.5])
         return own_points[idx % len(own_points)].position
 
+    def alias_row(idx):
+        """a numpy VIEW of one row of one of the entity's own point arrays (what `array[i]`, `curve.get_point(i)` of a
+        DiscreteCurve and `curve.discretize()[i]` hand out); a row that is not (nearly) the zero vector"""
+        rows = [(a, i) for a in own_arrays for i in range(len(a.points))]
+        rows = [(a, i) for a, i in rows if float(np.linalg.norm(a.points[i])) > 1e-3]
+        if not rows:
+            return alias(idx)
+        a, i = rows[idx % len(rows)]
+        return a.points[i]
+
     def exact(arr) -> List[str]:
         return [str(Fr(float(c))) for c in arr]
+
+    ALIAS_KEYS = ("d", "o", "a", "n")
+
+    def aliased_arg(s0, key):
+        """the array that IS the argument `key` of step s0 (None: the argument is an ordinary value)"""
+        if f"alias_{key}" in s0:
+            return alias(s0[f"alias_{key}"])
+        if f"alias_row_{key}" in s0:
+            return alias_row(s0[f"alias_row_{key}"])
+        return None
 
     resolved = []
     for s in steps:
         r = {k: v for k, v in s.items() if not k.startswith("alias")}
-        if "alias_d" in s:
-            r["d"] = exact(alias(s["alias_d"]))
-        if "alias_o" in s:
-            r["o"] = exact(alias(s["alias_o"]))
+        for key in ALIAS_KEYS:
+            arr = aliased_arg(s, key)
+            if arr is not None:
+                r[key] = exact(arr)
         resolved.append(r)
 
     def observe_center():
@@ -792,13 +838,13 @@ def apply_steps(e, steps: List[dict], mode: str, times: int = 1):
     if mode == "list":
         objs = build_step_objects(resolved)
         aliased = set()
+        field = {"d": "displacement", "o": "origin", "a": "axis", "n": "normal"}
         for i, (s, o) in enumerate(zip(steps, objs)):
-            if "alias_d" in s:
-                o.displacement = alias(s["alias_d"])
-                aliased.add((i, "displacement"))
-            if "alias_o" in s:
-                o.origin = alias(s["alias_o"])
-                aliased.add((i, "origin"))
+            for key in ALIAS_KEYS:
+                arr = aliased_arg(s, key)
+                if arr is not None:
+                    setattr(o, field[key], arr)
+                    aliased.add((i, field[key]))
         snap = [{k: (np.copy(v) if isinstance(v, np.ndarray) else v) for k, v in vars(o).items()} for o in objs]
         for _ in range(times):
             centers.append(observe_center())
@@ -811,14 +857,17 @@ def apply_steps(e, steps: List[dict], mode: str, times: int = 1):
     for _ in range(times):
         for i, (s0, s) in enumerate(zip(steps, resolved)):
             centers.append(observe_center())
-            o = None if s.get("o") is None else (alias(s0["alias_o"]) if "alias_o" in s0 else np.array(FV(s["o"])))
+            ao = aliased_arg(s0, "o")
+            o = None if s.get("o") is None else (ao if ao is not None else np.array(FV(s["o"])))
             o0 = None if o is None else np.copy(o)
+            vec_key = {"T": "d", "R": "a", "M": "n"}.get(s["k"])
+            av = aliased_arg(s0, vec_key) if vec_key else None
             if s["k"] == "T":
-                a = alias(s0["alias_d"]) if "alias_d" in s0 else np.array(FV(s["d"]))
+                a = av if av is not None else np.array(FV(s["d"]))
                 a0 = np.copy(a)
                 e.translate(a)
             elif s["k"] == "R":
-                a = np.array(FV(s["a"]))
+                a = av if av is not None else np.array(FV(s["a"]))
                 a0 = np.copy(a)
                 if o is None:
                     e.rotate(quat_theta(s["w"], s["a"]), a)
@@ -831,15 +880,15 @@ def apply_steps(e, steps: List[dict], mode: str, times: int = 1):
                 else:
                     e.scale(F(s["r"]), o)
             else:
-                a = np.array(FV(s["n"]))
+                a = av if av is not None else np.array(FV(s["n"]))
                 a0 = np.copy(a)
                 if o is None:
                     e.mirror(a)
                 else:
                     e.mirror(a, o)
-            if "alias_d" not in s0 and not np.array_equal(a, a0):
+            if av is None and not np.array_equal(a, a0):
                 mutated.append(f"step{i}.vector")
-            if o is not None and "alias_o" not in s0 and not np.array_equal(o, o0):
+            if o is not None and ao is None and not np.array_equal(o, o0):
                 mutated.append(f"step{i}.origin")
     return centers, mutated, resolved * times
 
@@ -1498,6 +1547,30 @@ class C09(core.Check):
                 st["o"] = None
                 st["alias_o"] = rng.randrange(8)
             cases.append({"kind": "ent", "ent": gen_entity(rng, fam), "steps": [st] + gen_steps(rng, rng.choice([0, 1])), "mode": rng.choice(["method", "list"]), "copy": False})
+        # Round 6b: arguments that are numpy VIEWS of a row of one of the entity's own point arrays (`curve.array[i]`,
+        # `discrete_curve.get_point(i)`, `curve.discretize()[i]`: "scale the curve about its own first point") — origin of
+        # a rotation / scaling / mirror, displacement, rotation axis, mirror normal; entities that carry point arrays
+        # (point-list curves bare and under Spline / PolyLine / OnCurve edges, faces and lofts with such edges)
+        row_ents = []
+        for ck in ("curve-discrete", "curve-linear", "curve-spline"):
+            fr = Frame(rng)
+            row_ents.append({"t": "curve", **gen_edge(rng, fr.P(0, 0, 0), fr.P(2, Fr(1, 2), 0), ck)["c"]})
+        row_ents.append({"t": "array", "pts": [S(rvec(rng)) for _ in range(4)]})
+        for ek in ("spline", "polyline", "curve-discrete"):
+            fr = Frame(rng)
+            p1, p2 = fr.P(0, 0, 0), fr.P(2, Fr(1, 2), 0)
+            row_ents.append({"t": "edge", "e": gen_edge(rng, p1, p2, ek), "ends": [S(p1), S(p2)]})
+        row_ents.append(gen_face(rng, Frame(rng), 0, 0.0, ["spline", "polyline"]))
+        row_ents.append(gen_loft(rng, Frame(rng), 0.0, ["spline", "polyline", "curve-discrete"]))
+        row_forms = [("S", "o"), ("S", "o"), ("R", "o"), ("M", "o"), ("T", "d"), ("R", "a"), ("M", "n")]
+        for i in range((16 if tier == "quick" else 64)):
+            k, key = row_forms[i % len(row_forms)] if i >= len(row_ents) else ("S", "o")
+            st = next(x for x in iter(lambda: gen_steps(rng, 1, False)[0], None) if x["k"] == k)
+            if key == "o":
+                st["o"] = ["0", "0", "0"]  # placeholder: the value at call time is recorded by the harness
+            st[f"alias_row_{key}"] = rng.randrange(12)
+            ent = row_ents[i % len(row_ents)]
+            cases.append({"kind": "ent", "ent": json.loads(json.dumps(ent)), "steps": [st] + gen_steps(rng, rng.choice([0, 1])), "mode": ["method", "list"][(i // len(row_ents)) % 2], "copy": False})
         # Round 4: analytic curves that have been measured before, scaled through a transformation list (the list
         # transforms the curve's parts, not the curve: nothing curve.scale() does on the side happens)
         for ck in ("curve-line", "curve-circle"):
@@ -1757,7 +1830,9 @@ class C09(core.Check):
         via = ("transform" if case["mode"] == "list" else "method") + ((":original-of-a-copy" if rev_copy else ":copy") if case["copy"] else "")
         if int(case.get("times", 1)) > 1:
             via += ":applied-twice"
-        if any(k.startswith("alias") for st in case["steps"] for k in st):
+        if any(k.startswith("alias_row") for st in case["steps"] for k in st):
+            via += ":argument-is-view-of-own-array"
+        elif any(k.startswith("alias") for st in case["steps"] for k in st):
             via += ":argument-is-own-point"
         where = f"{cls}:{kinds}:{via}"
         if "raised" in impl:
